@@ -11,6 +11,7 @@ from ..engine.runner import Rule
 from ..engine.source import AnalysisError
 from ..engine.sqlfront import all_where_clauses, split_conjuncts
 from . import C07
+from . import C09
 from . import shared
 from .common import callee_name, calls_in, kwarg
 
@@ -343,6 +344,7 @@ def rule_recreated_node_starts_clean(ctx):
 
 
 RULES = [
+    Rule("R-C01-13", "an observed change of a file is written and its consumers are told (update_file_hashes applies its table)", C09.rule_transitions_applied, min_instances=8),
     Rule("R-C01-12", "a reused node starts from the new declaration", rule_recreated_node_starts_clean, min_instances=2),
     Rule("R-C01-11", "a reverted optional step forgets what its run amended (same end state as a build that never ran it)", C07.rule_revert_forgets_run, min_instances=5),
     Rule("R-C01-10", "a rerun starts from the declaration", rule_rerun_starts_clean, min_instances=10),
